@@ -341,10 +341,12 @@ Definition trunc_note (hold : bool) (n : note) : note :=
          (n_hs n) (n_ss n) (n_as n) (n_cs n) (n_vol n) (n_file n).
 Definition trunc_sample (s : sample) : sample := mkSample (inject_Z (qtrunc (sm_off s))) (sm_file s) (sm_vol s).
 
-(* the chart a written text must denote: [c] with note / sample times truncated, Title / Artist replaced
+Definition IX_PREVIEW := 2%nat.
+(* the chart a written text must denote: [c] with note / sample / preview times truncated, Title / Artist replaced
    by their transliteration (oracle), text attributes without surrounding blanks, SV metronome dropped *)
 Definition written_chart (c : chart) (ut ua : text) : chart :=
-  mkChart (set_nth (set_nth (c_meta c) IX_TITLE (MStr (strip ut))) IX_ARTIST (MStr (strip ua)))
+  mkChart (set_nth (set_nth (set_nth (c_meta c) IX_PREVIEW (MNum (inject_Z (qtrunc (meta_num (c_meta c) IX_PREVIEW)))))
+                            IX_TITLE (MStr (strip ut))) IX_ARTIST (MStr (strip ua)))
           (c_bg c) (map trunc_sample (c_samples c)) (c_bpms c) (c_svs c)
           (map (trunc_note false) (c_hits c)) (map (trunc_note true) (c_holds c)).
 
@@ -379,3 +381,138 @@ Definition same_denotation (tol : Q) (a b : list text) : bool :=
   | _, _ => false
   end.
 Close Scope Q_scope.
+
+(* ================================================================== whole-file theorems: domains *)
+(* ------------------------------------------------------------------ the chart a denotation stands for *)
+(* attributes the text does not mention keep the dataclass defaults *)
+Definition realize_meta (d : list (option mval)) : list mval :=
+  map (fun p : option mval * mval => match fst p with Some v => v | None => snd p end) (combine d meta_default).
+Definition realize (d : dchart) : chart :=
+  mkChart (realize_meta (d_meta d)) (match d_bg d with Some b => b | None => [] end) (d_samples d)
+          (d_bpms d) (d_svs d) (d_hits d) (d_holds d).
+
+(* ------------------------------------------------------------------ strict layout of the read dialect
+   wf_read_text demands that the text DENOTES (every attribute's final value well typed, list lines well
+   formed).  The reader is not section aware and classifies lines by shape, so the whole-file theorem
+   needs in addition (each clause is necessary: see the *_refuted theorems in Proofs/OsuRead.v):
+   before [TimingPoints]
+   - every line whose key (text before the first colon, or the whole line) is one of the 30 attribute
+     names stands in that attribute's section, has a colon and a well-typed value; Tags has no piece made
+     only of non-blank white space;
+   - the two [Events] marker comments occur only verbatim, inside [Events], at most once;
+   - after the sample marker, a line starting with "Sample" starts with "Sample,";
+   between [TimingPoints] and [HitObjects]
+   - every timing line has the literal "0" or "1" as uninherited field; no line outside the
+     [TimingPoints] body (i.e. in [Colours]) has the shape of a timing line. *)
+Definition key_of (l : text) : text := match cut_first 58 l with Some (k, _) => k | None => l end.
+Fixpoint key_entry (k : text) (tbl : list (text * text * vtype)) : option (text * vtype) :=
+  match tbl with
+  | [] => None
+  | (sec, key, ty) :: r => if text_eqb k key then Some (sec, ty) else key_entry k r
+  end.
+Definition EVENTS := t "[Events]".
+Definition BG_MARKER := t "//Background and Video events".
+Definition SAMPLE_MARKER := t "//Storyboard Sound Samples".
+Definition tags_plain (v : text) : bool :=
+  forallb (fun p => negb (nonempty p) || nonempty (strip p)) (split_on 32 v).
+Definition value_typed (ty : vtype) (v : text) : bool :=
+  match typed_value ty v with Some _ => true | None => false end
+  && match ty with TTags => tags_plain v | _ => true end.
+Definition attr_line_ok (cur l : text) : bool :=
+  let k := key_of l in
+  match key_entry k key_table with
+  | Some (sec, ty) =>
+      text_eqb sec cur &&
+      match cut_first 58 l with
+      | Some (_, v) => value_typed ty v
+      | None => false end
+  | None => if text_eqb k BG_MARKER || text_eqb k SAMPLE_MARKER then text_eqb l k && text_eqb cur EVENTS else true
+  end.
+(* cur = the header of the section the line stands in ([] before the first header) *)
+Fixpoint lines_in_place (cur : text) (ls : list text) : bool :=
+  match ls with
+  | [] => true
+  | l :: r => if is_header l then lines_in_place l r else attr_line_ok cur l && lines_in_place cur r
+  end.
+(* lines before the first occurrence of h (all lines when there is none) *)
+Fixpoint upto (h : text) (ls : list text) : list text :=
+  match ls with
+  | [] => []
+  | l :: r => if text_eqb l h then [] else l :: upto h r
+  end.
+Definition occurrences (m : text) (ls : list text) : nat := length (filter (text_eqb m) ls).
+Definition tp_shaped (l : text) : bool :=
+  let f := split_on 44 l in
+  (length f =? 8)%nat && match nth_text f 6 with Some u => text_eqb u (t "0") || text_eqb u (t "1") | None => false end.
+
+Definition strict_read_text (lines0 : list text) : bool :=
+  let ls := map strip lines0 in
+  let pre := upto (t "[TimingPoints]") ls in
+  let between := match after_line (t "[TimingPoints]") ls with Some r => upto (t "[HitObjects]") r | None => [] end in
+  let body := take_body between in
+  lines_in_place [] pre
+  && (occurrences BG_MARKER pre <=? 1)%nat && (occurrences SAMPLE_MARKER pre <=? 1)%nat
+  && match after_line SAMPLE_MARKER pre with
+     | Some rest => forallb (fun l => negb (startswith (t "Sample") l) || startswith (t "Sample,") l) rest
+     | None => true end
+  && forallb tp_shaped (filter nonempty body)
+  && forallb (fun l => negb (tp_shaped l)) (skipn (length body) between).
+
+(* the read direction's domain *)
+Definition read_domain (lines0 : list text) : bool := wf_read_text lines0 && strict_read_text lines0.
+
+(* ------------------------------------------------------------------ domain of the write direction *)
+Definition clean (s : text) : bool :=                    (* survives line splitting and strip *)
+  negb (has 10 s) && negb (has 13 s) && text_eqb (strip s) s.
+Definition field_ok (s : text) : bool := clean s && negb (has 44 s) && negb (has 58 s).
+Definition note_ok (keys : Z) (n : note) : bool :=
+  (0 <=? n_col n)%Z && (n_col n <? keys)%Z && field_ok (n_file n).
+Definition mstr_ok (v : mval) : bool :=
+  match v with
+  | MStr s => clean s
+  | MTags l => forallb (fun w => clean w && nonempty w && negb (has 32 w)) l
+  | _ => true
+  end.
+(* every attribute holds a value of its own kind *)
+Definition kind_ok (ty : vtype) (v : mval) : bool :=
+  match ty, v with
+  | TStr, MStr _ => true
+  | TInt, MNum _ => true
+  | TBool, MBool _ => true
+  | TDec, MNum _ => true
+  | TSampleSet, MNum _ => true
+  | TTags, MTags _ => true
+  | _, _ => false
+  end.
+Fixpoint kinds_ok (tbl : list (text * text * vtype)) (m : list mval) : bool :=
+  match tbl, m with
+  | [], [] => true
+  | (_, _, ty) :: tbl', v :: m' => kind_ok ty v && kinds_ok tbl' m'
+  | _, _ => false
+  end.
+Definition wf_chart (c : chart) : bool :=
+  let m := c_meta c in
+  let kq := meta_num m IX_CS in
+  let keys := Qfloor kq in
+  (length m =? 30)%nat && is_integral kq && (1 <=? keys)%Z && (keys <=? 18)%Z
+  && forallb mstr_ok m
+  && (let ss := meta_num m 4%nat in is_integral ss && Qle_bool (-1) ss && Qle_bool ss 3)
+  && clean (c_bg c)
+  && forallb (fun s => clean (sm_file s) && negb (has 44 (sm_file s))) (c_samples c)
+  && forallb (fun b => negb (Qeq_bool (b_bpm b) 0)) (c_bpms c)
+  && forallb (fun s => negb (Qeq_bool (s_mul s) 0)) (c_svs c)
+  && forallb (note_ok keys) (c_hits c) && forallb (note_ok keys) (c_holds c).
+(* the numbers of a chart that are written by a float printer (WN) / by an int printer (WI) *)
+Definition wn_numbers (c : chart) : list Q :=
+  let m := c_meta c in
+  map (meta_num m) [5; 10; 13; 24; 25; 26; 27; 28; 29]%nat
+  ++ flat_map (fun b => [b_off b; Qred (60000 / b_bpm b)]) (c_bpms c)
+  ++ flat_map (fun s => [s_off s; Qred ((-100) / s_mul s)]) (c_svs c).
+Definition wi_numbers (c : chart) : list Q := map (meta_num (c_meta c)) [1; 6; 11; 12; 22; 23]%nat.
+
+(* the whole-file write theorems need in addition: attribute kinds, integral values of the int-typed attributes
+   printed by str / ':g' (PreviewTime is int()-truncated like every time), and transliterations without a line
+   feed (unidecode maps U+2028 / U+2029 to line feeds: see write_title_linefeed_refuted) *)
+Definition write_domain (c : chart) (ut ua : text) : bool :=
+  wf_chart c && kinds_ok key_table (c_meta c) && forallb is_integral (wi_numbers c) && negb (has 10 ut) && negb (has 10 ua) && negb (has 13 ut) && negb (has 13 ua).
+
